@@ -840,7 +840,8 @@ def gen_misc(repo, report):
         fail(path, fn, 'ids_maker changed')
     fn = find_func(tree.body, 'id_maker')
     note('id_maker', 'layers/join.py', fn, src)
-    want = ("defkey(i,mappings):\ninner,*rest=mappings\nifiininner:\nreturninner[i][index]\nifiinrest[index]:\n"
+    want = ("one_sided=howin([JoinMode.left,JoinMode.outer]ifindex==0else[JoinMode.right,JoinMode.outer])\n\n"
+            "defkey(i,mappings):\ninner,*rest=mappings\nifiininner:\nreturninner[i][index]\nifone_sidedandiinrest[index]:\n"
             "returnrest[index][i]\nraiseKeyError(f'Key\"{i}\"notfound')\nreturnkey")
     if norm(fn.body) != want:
         fail(path, fn, 'id_maker changed')
@@ -849,7 +850,10 @@ def gen_misc(repo, report):
         Inductive join_mode := JInner | JLeft | JRight | JOuter.
         Definition ids_uses_left (how : join_mode) : bool := match how with JLeft | JOuter => true | _ => false end.
         Definition ids_uses_right (how : join_mode) : bool := match how with JRight | JOuter => true | _ => false end.
-        Definition id_maker_order : string := "inner first, then the own one-sided table, else KeyError".
+        Definition id_maker_order : string := "inner first, then the own one-sided table if the mode selects this side, else KeyError".
+        (* id_maker(index, how): a one-sided entry is served only in the modes that keep this side *)
+        Definition id_serves_one_sided (left_side : bool) (how : join_mode) : bool :=
+          if left_side then ids_uses_left how else ids_uses_right how.
         '''))
 
     # --- library-owned callables stored in edges (C19): lambdas / nested defs passed to FunctionEdge(...) in connectome/layers
